@@ -538,7 +538,7 @@ pub fn controller(w: &Workload) {
     // a real client that lets the context go out of scope.
 }
 
-pub const MAX_STEPS: usize = 300_000;
+pub const MAX_STEPS: usize = 600_000;
 
 pub fn execute(w: &Workload, spec: SchedSpec) -> WorldOutcome {
     let w2 = Arc::new(w.clone());
